@@ -1,1 +1,364 @@
-//! C06: not implemented yet.
+//! C06 — Clock filter output stays finite and well-formed.
+//!
+//! Same explicit-state engine as C01 (`super::c01`), extreme-value alphabet. The Kalman
+//! stage of a source only starts after 8 samples, so exploration starts from pre-built
+//! post-initialisation states (8 benign / 8 identical / 8 alternating-extreme samples, for
+//! a two-way and for a one-way source) and is exhaustive from there.
+//!
+//! `NtpDuration::from_seconds` silently turns NaN into 0 and +-inf into +-MAX, so the
+//! published fixed-point values can never *look* non-finite. The oracle therefore reads
+//! the f64 values behind them (read-only probes): the snapshot every `observe()` and every
+//! source message is built from, the steering value of every step / frequency message,
+//! the f64 fields of every published `TimeSnapshot`, and the radicand of its
+//! `root_dispersion` (the error estimate handed to the clock).
+use std::hash::Hash;
+
+use super::c01::{
+    self, explore, prefix_usable, replay_with, run_specs, Call, Cfg, End, Ev, Report, Spec, Transition, A, B, G,
+    MS, S,
+};
+use super::common::{self, Ctx};
+
+#[derive(Default, Hash, Clone, Debug)]
+struct M06;
+
+fn check_snap(f: &[f64; 8], whence: &str, slot: usize, r: &mut Report) {
+    // [offset, frequency, p00, p01, p10, p11, wander, delay]
+    if !f[0].is_finite() {
+        r.viol("C06:source-offset-nonfinite", format!("{whence} of source {slot}: offset {:e}", f[0]));
+    }
+    if f[2].is_nan() || f[2].is_infinite() {
+        r.viol("C06:source-variance-nonfinite", format!("{whence} of source {slot}: offset variance {:e}", f[2]));
+    } else if f[2] < 0.0 {
+        r.viol(
+            "C06:source-variance-negative",
+            format!("{whence} of source {slot}: offset variance {:e} (uncertainty = sqrt = NaN, published as 0)", f[2]),
+        );
+    }
+    if !f[7].is_finite() {
+        r.viol("C06:source-delay-nonfinite", format!("{whence} of source {slot}: delay {:e}", f[7]));
+    }
+    // not part of the statement, kept as visible diagnostics
+    if !f[1].is_finite() || !f[5].is_finite() || f[5] < 0.0 || !f[3].is_finite() || !f[6].is_finite() {
+        r.inc("diag_frequency_part_of_estimate_not_wellformed");
+    }
+}
+
+fn judge06(_cfg: &Cfg, _m: &mut M06, tr: &Transition, rep: Option<&mut Report>) {
+    let Some(r) = rep else { return };
+    for (slot, f) in &tr.produced {
+        match f {
+            Some(f) => {
+                r.inc("source_messages");
+                check_snap(f, "source message", *slot, r);
+            }
+            None => r.inc("measurements_without_message"),
+        }
+    }
+    for v in &tr.views {
+        r.inc("observe_calls");
+        if v.phase == 8 {
+            r.inc("observe_calls_kalman_stage");
+        }
+        if let Some(f) = &v.snap {
+            check_snap(f, "observe()", v.slot, r);
+            if f[2] == 0.0 {
+                r.inc("observed_zero_variance");
+            }
+            if f[0].abs() >= 1e9 {
+                r.inc("observed_offset_beyond_1e9_s");
+            }
+        }
+        if v.obs[1] < 0 {
+            r.viol(
+                "C06:source-uncertainty-negative",
+                format!("observe() of source {} reports uncertainty {} units", v.slot, v.obs[1]),
+            );
+        }
+    }
+    for u in &tr.upds {
+        for c in &u.calls {
+            match c {
+                Call::SetFreq(f) => {
+                    r.inc("set_frequency_calls");
+                    if !f.is_finite() {
+                        r.viol("C06:clock-frequency-nonfinite", format!("set_frequency({f:e})"));
+                    }
+                }
+                Call::Step(_) => r.inc("steps"),
+                Call::ErrEst(..) => r.inc("error_estimate_updates"),
+                _ => {}
+            }
+        }
+        if let Some((kind, steer, _)) = u.steer {
+            if !steer.is_finite() {
+                r.viol(
+                    if kind == 0 { "C06:clock-step-nonfinite" } else { "C06:frequency-change-nonfinite" },
+                    format!("steering value {steer:e} (kind {kind})"),
+                );
+            }
+        }
+        if let Some(s) = &u.snap {
+            let fields = [
+                s.root_variance_base,
+                s.root_variance_linear,
+                s.root_variance_quadratic,
+                s.root_variance_cubic,
+            ];
+            if fields.iter().any(|f| !f.is_finite()) {
+                r.viol("C06:time-snapshot-nonfinite", format!("published TimeSnapshot root variance terms {fields:?}"));
+            } else {
+                // error estimate handed to the clock = root_dispersion(base time) = sqrt(base)
+                if u.used.is_some() && fields[0] < 0.0 {
+                    r.viol(
+                        "C06:error-estimate-nan",
+                        format!("root_variance_base {:e} < 0: error estimate sqrt() is NaN (passed to the clock as 0)", fields[0]),
+                    );
+                }
+                // what clients are served while the snapshot is current (t seconds after its base time)
+                for t in [1.0f64, 131072.0] {
+                    let rad = fields[0] + t * fields[1] + t.powi(2) * fields[2] + t.powi(3) * fields[3];
+                    if !(rad >= 0.0) || rad.is_infinite() {
+                        r.viol(
+                            "C06:root-dispersion-radicand-not-wellformed",
+                            format!("root dispersion {t} s after the update: radicand {rad:e} from {fields:?}"),
+                        );
+                    }
+                }
+                if u.used.is_some() {
+                    r.inc("snapshots_with_consensus");
+                }
+            }
+        }
+        match &u.end {
+            End::Ok => {
+                if u.next_update.is_some() {
+                    r.inc("slews_started");
+                }
+            }
+            End::Exit => r.inc("exits"),
+            End::Panic(site, msg) => {
+                r.inc("panics");
+                r.viol(format!("C06:panic[{site}]"), msg.clone());
+            }
+        }
+    }
+    if let End::Panic(site, msg) = &tr.end {
+        if tr.upds.iter().all(|u| !matches!(u.end, End::Panic(..))) {
+            r.inc("panics");
+            r.viol(format!("C06:panic[{site}]"), msg.clone());
+        }
+    }
+    if let Some(v) = tr.views.last() {
+        if let Some(f) = v.snap {
+            r.note = Some(format!("source {} phase {} offset {:e} variance {:e} delay {:e}", v.slot, v.phase, f[0], f[2], f[7]));
+        }
+    }
+}
+
+const U30: i64 = 1i64 << 62; // 2^30 s
+const D_MAX: i64 = 65535 * S;
+const MAX_SHORT: i64 = 0xFFFF_FFFFi64 << 16; // largest NTP short-format value (root delay / dispersion)
+const DT_MS: i64 = S / 1000;
+const DT_BIG: i64 = 131072 * S; // 2^17 s
+const US: i64 = 4295; // 1e-6 s
+
+fn m(src: u8, off: i64, delay: i64, dt: i64) -> Ev {
+    Ev::meas(src, off, delay, dt)
+}
+
+fn alphabet06_core() -> Vec<Ev> {
+    vec![
+        // two-way A
+        m(A, 0, US, S),
+        m(A, 1, 1, DT_MS),
+        m(A, -1, 1, DT_BIG),
+        m(A, U30, 1, DT_MS),
+        m(A, -U30, 1, DT_BIG),
+        m(A, U30, D_MAX, DT_MS),
+        m(A, -U30, D_MAX, DT_BIG),
+        m(A, 1, D_MAX, DT_MS),
+        m(A, -1, D_MAX, DT_BIG),
+        m(A, U30, US, S),
+        m(A, -U30, US, S),
+        m(A, S, S, S),
+        m(A, -S, US, DT_BIG),
+        m(A, 0, 1, DT_BIG),
+        m(A, 0, D_MAX, DT_MS),
+        m(A, 0, US, S).with_root(MAX_SHORT, MAX_SHORT),
+        m(A, U30, 1, DT_BIG).with_root(MAX_SHORT, MAX_SHORT),
+        m(A, -U30, D_MAX, DT_MS).with_root(MAX_SHORT, MAX_SHORT),
+        m(A, 0, S, DT_MS),
+        m(A, S, US, DT_MS),
+        // zero / negative / most negative round-trip delay (clock stepped during an exchange)
+        m(A, -1, 0, DT_MS),
+        m(A, 0, -S, S),
+        m(A, S, i64::MIN, S),
+        // one-way G
+        m(G, 0, 0, S),
+        m(G, 1, 0, DT_MS),
+        m(G, -U30, 0, DT_BIG),
+        m(G, U30, 0, DT_MS),
+        m(G, i64::MIN, 0, S),
+        m(G, i64::MAX, 0, DT_BIG),
+        m(G, -S, 0, S).with_root(MAX_SHORT, MAX_SHORT),
+        // second two-way source (combination of several estimates)
+        m(B, 0, US, S),
+        m(B, U30, 1, DT_MS),
+        m(B, -1, D_MAX, DT_BIG),
+        m(B, 0, -S, S),
+        Ev::Tick,
+    ]
+}
+
+fn alphabet06_full() -> Vec<Ev> {
+    let mut v = Vec::new();
+    for off in [0, 1, -1, S, -S, U30, -U30] {
+        for delay in [i64::MIN, -S, 0, 1, US, S, D_MAX] {
+            for dt in [DT_MS, S, DT_BIG] {
+                for root in [0, MAX_SHORT] {
+                    v.push(m(A, off, delay, dt).with_root(root, root));
+                }
+            }
+        }
+    }
+    for off in [0, 1, -1, S, -S, U30, -U30, i64::MIN, i64::MAX] {
+        for dt in [DT_MS, S, DT_BIG] {
+            for root in [0, MAX_SHORT] {
+                v.push(m(G, off, 0, dt).with_root(root, root));
+            }
+        }
+    }
+    v.push(Ev::Tick);
+    v
+}
+
+fn starts06() -> Vec<(String, Vec<Ev>)> {
+    let mut v = Vec::new();
+    for (src, tag) in [(A, "two-way"), (G, "one-way")] {
+        let d = if src == A { MS } else { 0 };
+        let mut p = prefix_usable();
+        p.push(Ev::burst(src, 0, d, S, 8, MS / 10, if src == A { MS / 50 } else { 0 }));
+        v.push((format!("benign/{tag}"), p));
+        let mut p = prefix_usable();
+        p.push(Ev::burst(src, 0, d, S, 8, 0, 0));
+        v.push((format!("identical/{tag}"), p));
+        // offsets cycle -2^30 s, 0, +2^30 s; two-way delays alternate 1 unit / 65535 s
+        let mut p = prefix_usable();
+        p.push(Ev::burst(src, 0, if src == A { 1 } else { 0 }, S, 8, U30, if src == A { D_MAX } else { 0 }));
+        v.push((format!("alternating-extreme/{tag}"), p));
+    }
+    // both kinds of source past initialisation at once: a well-behaved two-way source next to
+    // a one-way source initialised from alternating extreme samples, and vice versa
+    let mut p = prefix_usable();
+    p.push(Ev::burst(A, 0, MS, S, 8, MS / 10, MS / 50));
+    p.push(Ev::burst(G, 0, 0, S, 8, U30, 0));
+    v.push(("benign two-way + alternating-extreme one-way".to_string(), p));
+    let mut p = prefix_usable();
+    p.push(Ev::burst(G, 0, 0, S, 8, MS / 10, 0));
+    p.push(Ev::burst(A, 0, 1, S, 8, U30, D_MAX));
+    v.push(("benign one-way + alternating-extreme two-way".to_string(), p));
+    v
+}
+
+fn configs06() -> Vec<Cfg> {
+    vec![
+        // shipped algorithm configuration, no panic thresholds (exits would hide later behaviour)
+        Cfg::default(),
+        // every source selectable whatever its uncertainty: extreme estimates reach selection,
+        // combination, steering and the published snapshot
+        Cfg { max_src_unc: 1e300, order: 1, ..Cfg::default() },
+    ]
+}
+
+fn replay(ctx: &Ctx, trace: &str) -> String {
+    replay_with::<M06, _>(ctx, trace, &judge06)
+}
+
+#[test]
+fn check() {
+    let ctx = Ctx::new("C06");
+    if let Some(t) = common::replay_trace() {
+        let a = replay(&ctx, &t);
+        let b = replay(&ctx, &t);
+        common::report_replay("C06", &a, &b, ctx.violation_count() > 0);
+        return;
+    }
+    let quick = ctx.quick();
+    let core = alphabet06_core();
+    let full = alphabet06_full();
+    let (d_core, d_full) = if quick { (3, 1) } else { (4, 2) };
+    let d_per = if quick { 3 } else { 5 };
+    ctx.rule(&format!(
+        "From each of 8 pre-built post-initialisation states (8 benign / 8 identical / 8 alternating-extreme samples x two-way A / one-way G, plus benign two-way next to alternating-extreme one-way and vice versa) and for 2 configurations \
+         (shipped algorithm defaults; maximum_source_uncertainty unlimited so that extreme estimates are selected and steered on), BFS over all measurement histories of \
+         <= {d_core} events over the {}-symbol core alphabet (every value of offset {{0,+-2^-32 s,+-1 s,+-2^30 s; one-way also i64::MIN/MAX}}, delay {{i64::MIN units,-1 s,0,2^-32 s,1 us,1 s,65535 s}}, \
+         dt {{1 ms,1 s,2^17 s}}, root delay/dispersion {{0, max short}} occurs, all pairs of extreme values occur; second two-way source B; slew-end timer) and <= {d_full} events \
+         over the {}-symbol full product alphabet; steering fed back to every source, the mock clock's steps move the local time of later measurements; plus (one-way source made periodic, period 1 s) \
+         all histories of <= {d_per} events over a 13-symbol alphabet with offsets at and around +-period/2 from 2 start states. \
+         States deduplicated on exact bit patterns. Distinct & non-trivial = distinct end state reached by a transition that invoked the controller.",
+        core.len(),
+        full.len()
+    ));
+    ctx.assume("local time between measurements advances by exactly dt on both the system and the monotonic clock (no meddling), plus the steps the daemon itself applies");
+    ctx.assume("the per-measurement precision field is not an axis: the Kalman code never reads it");
+    ctx.assume("f64 values behind the published fixed-point numbers are read through read-only probes, because NtpDuration::from_seconds maps NaN to 0 and inf to MAX");
+    ctx.note("alphabet_core", &core.iter().map(|e| e.encode()).collect::<Vec<_>>().join(" "));
+    let mut specs = Vec::new();
+    for cfg in configs06() {
+        for (name, prefix) in starts06() {
+            for (alpha, depth, tag) in [(&core, d_core, "core"), (&full, d_full, "full")] {
+                specs.push(Spec {
+                    rank: if cfg.max_src_unc > 1.0 { 1 } else { 0 },
+                    name: format!("{name}/{tag}"),
+                    cfg: cfg.clone(),
+                    prefix: prefix.clone(),
+                    alphabet: alpha.clone(),
+                    depth,
+                });
+            }
+        }
+    }
+    // the one-way source made periodic (PPS-like, period 1 s): wrap-around arithmetic of the
+    // filter, offsets at and around +-period/2, next to a voting two-way source
+    let periodic: Vec<Ev> = vec![
+        m(A, 0, US, S),
+        m(A, S / 5, US, DT_BIG),
+        m(A, -S, 1, DT_MS),
+        m(G, 0, 0, S),
+        m(G, 1, 0, DT_MS),
+        m(G, S / 2, 0, S),
+        m(G, -S / 2, 0, DT_BIG),
+        m(G, S / 2 + 1, 0, DT_MS),
+        m(G, 3 * S / 4, 0, S),
+        m(G, -13 * S / 4, 0, S),
+        m(G, 2 * S / 5, 0, S).with_root(MAX_SHORT, MAX_SHORT),
+        Ev::burst(G, S / 2, 0, S, 8, 1, 0),
+        Ev::Tick,
+    ];
+    for cfg in configs06() {
+        let cfg = Cfg { sources: c01::periodic_sources(), ..cfg };
+        for (name, prefix) in [
+            ("periodic/fresh", prefix_usable()),
+            ("periodic/two-way benign", {
+                let mut p = prefix_usable();
+                p.push(Ev::burst(A, 0, MS, S, 8, MS / 10, MS / 50));
+                p
+            }),
+        ] {
+            specs.push(Spec {
+                rank: if cfg.max_src_unc > 1.0 { 1 } else { 0 },
+                name: name.to_string(),
+                cfg: cfg.clone(),
+                prefix,
+                alphabet: periodic.clone(),
+                depth: d_per,
+            });
+        }
+    }
+    ctx.note("alphabet_periodic", &periodic.iter().map(|e| e.encode()).collect::<Vec<_>>().join(" "));
+    ctx.set("explorations", specs.len() as u64);
+    let complete = run_specs::<M06, _>(&ctx, &specs, &judge06);
+    ctx.exhaustive(complete);
+    ctx.finish();
+}
